@@ -68,7 +68,8 @@ Next == \/ sc.stage = 0 /\ \E e \in Tags : sc' = [stage |-> 1, e |-> e]
         \/ sc.stage = 0 /\ \E c \in MultiCases : sc' = [stage |-> 2, c |-> [k |-> c.k, faults |-> SetToSeq(c.faults)]]
         \/ sc.stage = 0 /\ \E e \in {t \in Tags : Elem[t].form = "block" /\ Elem[t].kids # <<>>} : sc' = [stage |-> 3, e |-> e]
         \/ sc.stage = 3 /\ \E c \in {x \in SkipCases(sc.e) : x.at <= x.nkids} : sc' = [stage |-> 2, c |-> c]
-        \/ sc.stage = 0 /\ \E w \in {"no_version", "bad_version", "version_garbled", "trailing", "empty_project_missing", "two_projects"} :
+        \/ sc.stage = 0 /\ \E w \in {"no_version", "bad_version", "version_garbled", "trailing", "empty_project_missing", "two_projects",
+                                            "a2ml_syntax", "a2ml_no_ifdata_block", "a2ml_undeclared_type", "a2ml_end_tag"} :
                sc' = [stage |-> 2, c |-> [k |-> "file", what |-> w]]
 Spec == Init /\ [][Next]_sc
 Emit == sc.stage = 2 => PrintT(<<"CASE", ToJson(sc.c)>>)
